@@ -172,3 +172,44 @@ func TestC06Volume(t *testing.T) {
 	rec = h.NewRecorder("C06", "volume")
 	h.RunWith(t, rec, func(t *rapid.T) Hist { return genVolumeHist(t, false) }, volumeOf(judgeC06, false))
 }
+
+// Long: a compliant consumer through hundreds of requests on one session, the money running out and being topped up
+// along the way, the request counters passing 512, 65536 and 2^32.
+func genC06Long(t *rapid.T) Hist {
+	var hst Hist
+	cost := rapid.SampledFrom([]int{1, 3, 7}).Draw(t, "cost")
+	money := int64(cost) * int64(rapid.IntRange(2000, 6000).Draw(t, "money"))
+	hst.Subs = []Sub{{Acct: [3]Acct{{cost, money}, {cost, money / 2}, {cost, 500}}}}
+	hst.Ops = append(hst.Ops, Op{K: "create", S: 0, Name: "smf", UUs: []UU{{RG: 1, Req: 100}}})
+	n := h.Scale(320, 3000)
+	for i := 0; i < n; i++ {
+		rg := int32(1 + i%3)
+		if i%4 != 3 {
+			rg = 1
+		}
+		op := Op{K: "update", S: 0, UUs: []UU{{RG: rg, Req: int32(50 + i%200), Conts: []Cont{{Q: "online", Pm: (i * 37) % 1001}}}}}
+		switch {
+		case i%97 == 96:
+			op = Op{K: "recharge", S: 0, RG: rg, Amt: int64(cost) * 3000}
+		case i == n/4:
+			op = Op{K: "aged", S: 0, RG: 1, Amt: 500}
+		case i == n/2:
+			op = Op{K: "aged", S: 0, RG: 1, Amt: 65530}
+		case i == 3*n/4:
+			op = Op{K: "aged", S: 0, RG: 1, Amt: 1<<32 - 4}
+		}
+		hst.Ops = append(hst.Ops, op)
+	}
+	return hst
+}
+
+func TestC06Long(t *testing.T) {
+	rec = h.NewRecorder("C06", "long")
+	h.RunWith(t, rec, genC06Long, func(hst Hist) *h.Verdict {
+		v := judgeC06(hst)
+		v.Label("history>=300-requests")
+		v.Label("request-counter-passes-65536")
+		v.NonTrivial = true
+		return v
+	})
+}
